@@ -180,8 +180,43 @@ template <typename T> static void carry_run(long long N)
         .a("binErrUlps", std::vector<long long>{err_ulps<T>(r.results()[2].sum(), 6, 6, e)}).emit();
 }
 
+// values in the subnormal range (small multiples of the smallest positive number): sums of them are exact in every order, for the
+// integral and for the bins - nothing of them may be dropped
+template <typename T> static void subnormal_run(long long N, unsigned long long seed)
+{
+    rng g(seed);
+    T const dm = std::numeric_limits<T>::denorm_min();
+    std::vector<long long> vals((std::size_t) N);
+    __int128 exact = 0, abssum = 0, bexact[2] = {0, 0}, babs[2] = {0, 0};
+    for (long long i = 0; i != N; ++i)
+    {
+        long long v = (long long) (1 + g.below(7)) * (g.below(4) == 0 ? -1 : 1);
+        vals[(std::size_t) i] = v;
+        exact += v; abssum += v < 0 ? -v : v;
+        bexact[i % 2] += v; babs[i % 2] += v < 0 ? -v : v;
+    }
+    long long idx = 0;
+    auto f = [&](hep::mc_point<T> const&, hep::projector<T>& pr) {
+        long long i = idx++;
+        T v = T(vals[(std::size_t) i]) * dm;
+        pr.add(0, T(0.25) + T(0.5) * T(i % 2), v);
+        pr.add(1, T(0.25) + T(0.5) * T(i % 2), T(0.25), v);
+        return v;
+    };
+    auto r = hep::plain(hep::make_integrand<T>(f, 1, hep::make_dist_params<T>(2, T(), T(1), "s"), hep::distribution_parameters<T>(2, 1, T(), T(1), T(), T(1), "s2")),
+        std::vector<std::size_t>{(std::size_t) N}, hep::make_plain_chkpt<T>(), hep::callback<hep::default_plain_chkpt<T>>(hep::callback_mode::silent));
+    auto const& res = r.results()[0];
+    // in units of the smallest positive number (= one ulp everywhere in the subnormal range); the bins store sum / 0.5
+    auto units = [&](T x, __int128 want) { long double d = std::fabs((long double) x / (long double) dm - (long double) want); return (long long) std::ceil(d); };
+    std::vector<long long> bins;
+    for (int d = 0; d != 2; ++d) for (int b = 0; b != 2; ++b) bins.push_back(units(res.distributions()[(std::size_t) d].results()[(std::size_t) b].sum() * T(0.5), bexact[b]));
+    ev("SumCheck").s("T", type_name<T>::get()).s("family", "subnormal").i("N", N).i("errUlps", units(res.sum(), exact)).a("binErrUlps", bins).emit();
+}
+
 template <typename T> static void real_family(rng& g, bool thorough)
 {
+    subnormal_run<T>(1000, g.next());
+    subnormal_run<T>(1, g.next());
     std::vector<long long> Ns{1, 1000, 100000};
     if (thorough) { Ns.push_back(3000000); Ns.push_back(10000000); }
     for (int f = 0; f != 5; ++f) for (long long N : Ns) real_run<T>(f, N, g.next());
